@@ -1298,6 +1298,9 @@ class Engine:
     def contract_call(self, q, cs, bound, st, n):
         self.note_callee(q)
         env = {'__mod__': st.env.get('__mod__')}
+        for k_, v_ in st.env.items():
+            if k_.startswith('ghost_'):
+                env[k_] = v_          # ghost copies of caller values may be named in callee contracts
         for p in cs.params:
             if p in bound:
                 env[p] = bound[p]
@@ -1335,7 +1338,13 @@ class Engine:
 
     def fresh_value(self, ty, name, st):
         if ty.startswith('tuple:'):
-            return tuple(self.fresh_value(t, name, st) for t in ty[6:].split(','))
+            return tuple(self.fresh_value(t, name + str(k), st) for k, t in enumerate(ty[6:].split(';')))
+        if ty == 'none':
+            return None
+        if ty.startswith('arr:'):
+            # a freshly allocated array result with symbolic shape and arbitrary contents, e.g. arr:real[:,3]
+            a = self.make_arg(f'{name}!{next(_fresh)}', ty[4:], st)
+            return a
         return SV(fresh(name, sort_of(ty)), ty)
 
     def havoc_view(self, st, a, fr, env, old_heap, n):
